@@ -375,8 +375,8 @@ def lift_egloop(repo):
             raise U(f"initial value changed: {nm} = {ast.unparse(a.value)}")
     out.append("/-- `theta = pd.Series(0, lagrangian.constraints.index)` -/\ndef thetaInit : Rat := 0")
     out.append("/-- `last_regret_checked = _REGRET_CHECK_START_T` -/\ndef lastCheckedInit : Nat := regretCheckStartT")
-    out.append("/-- `last_gap = np.inf`: modelled as `none`; `x > inf * c` is False for every finite x -/\n"
-               "def lastGapInitIsInf : Bool := true")
+    out.append("/-- `last_gap = np.inf` (`none` = +inf: `x > inf * c` is False for every finite x and c > 0) -/\n"
+               "def lastGapInit : Option Rat := none")
     meta["init"] = want_init
 
     # ---- lambda_vec -----------------------------------------------------------------------------------
@@ -392,10 +392,12 @@ def lift_egloop(repo):
     if ast.unparse(body[i_col].value) != "lambda_vec":
         raise U(f"self.lambda_vecs_EG_[t] = {ast.unparse(body[i_col].value)}")
     i_mean = position(body, lambda n: bool(assigns([n], "lambda_EG")), "assignment to lambda_EG")
-    if ast.unparse(body[i_mean].value) != "self.lambda_vecs_EG_.mean(axis=1)":
+    aggs = {"self.lambda_vecs_EG_.mean(axis=1)": "(colSum / ((nCols : Nat) : Rat))", "self.lambda_vecs_EG_.sum(axis=1)": "colSum"}
+    if ast.unparse(body[i_mean].value) not in aggs:
         raise U(f"lambda_EG = {ast.unparse(body[i_mean].value)}")
-    out.append("/-- `lambda_EG = self.lambda_vecs_EG_.mean(axis=1)`: entry-wise mean of the columns stored so far -/\n"
-               "def lamEGIsColumnMean : Bool := true")
+    out.append(f"/-- `lambda_EG = {ast.unparse(body[i_mean].value)}`: one entry from the sum of that entry over the nCols columns "
+               "stored so far -/\n"
+               f"def lamEGAgg (colSum : Rat) (nCols : Nat) : Rat := {aggs[ast.unparse(body[i_mean].value)]}")
     meta["lambda_EG"] = ast.unparse(body[i_mean].value)
 
     # ---- best_h call, Qsum, gamma, Q_EG ----------------------------------------------------------------
@@ -521,6 +523,49 @@ def lift_egloop(repo):
     extra = [ast.unparse(body[i])[:80] for i in range(len(body)) if i not in known]
     if extra:
         raise U(f"statements in the loop body the model does not know: {extra}")
+    # ---- what `Qs` holds: references.  Every object appended to `Qs` must be bound afresh in the SAME pass through the loop
+    #      body (an assignment whose value builds a new object) and never updated in place (`x *= ..`, `x[k] = ..`,
+    #      `x.at[k] += ..`): otherwise earlier entries of `Qs` silently change (seeded change C08a)
+    appended = set()
+    for n in ast.walk(loop):
+        if isinstance(n, ast.Call) and isinstance(n.func, ast.Attribute) and n.func.attr == "append" \
+                and ast.unparse(n.func.value) == "Qs":
+            if len(n.args) != 1 or n.keywords or not isinstance(n.args[0], ast.Name):
+                raise U(f"Qs.append of unknown shape: {ast.unparse(n)}")
+            appended.add(n.args[0].id)
+    fresh = bool(appended)
+    why = []
+    for nm in sorted(appended):
+        binds = []
+        for n in ast.walk(loop):
+            if isinstance(n, ast.Assign):
+                for tg in n.targets:
+                    elts = tg.elts if isinstance(tg, ast.Tuple) else [tg]
+                    if any(isinstance(e, ast.Name) and e.id == nm for e in elts):
+                        binds.append(n)
+            if isinstance(n, ast.AugAssign):
+                b = n.target
+                while isinstance(b, (ast.Subscript, ast.Attribute)):
+                    b = b.value
+                if isinstance(b, ast.Name) and b.id == nm:
+                    fresh = False
+                    why.append(f"{ast.unparse(n)}")
+            if isinstance(n, (ast.Subscript, ast.Attribute)) and isinstance(n.ctx, (ast.Store, ast.Del)):
+                b = n
+                while isinstance(b, (ast.Subscript, ast.Attribute)):
+                    b = b.value
+                if isinstance(b, ast.Name) and b.id == nm:
+                    fresh = False
+                    why.append(f"store through {ast.unparse(n)}")
+        if len(binds) != 1 or isinstance(binds[0].value, (ast.Name, ast.Attribute, ast.Subscript)):
+            fresh = False       # not rebound in the loop, bound twice, or bound to an existing object (an alias)
+            why.append(f"{nm} is not bound exactly once per pass to a newly built object")
+    out.append("/-- `Qs.append(Q_EG)` / `Qs.append(Q_LP)` store REFERENCES.  true = every appended name is re-bound to a newly "
+               "built object in each pass of the loop body and never updated in place, so `Qs[t]` keeps the value it had at "
+               "iteration t" + ("" if fresh else f" (violated: {'; '.join(why)[:200]})") + " -/\n"
+               f"def qsEntriesFresh : Bool := {'true' if fresh else 'false'}")
+    meta["qs_fresh"] = fresh
+
     # the t == 0 block may only set nu (when None) and eta
     t0 = strip_logging(body[i_t0].body)
     if len(t0) != 2 or not (isinstance(t0[0], ast.If) and ast.unparse(t0[0].test) == "self.nu is None"):
@@ -586,11 +631,12 @@ def lift_egloop(repo):
             [ast.unparse(n) for n in pj.body] != ["lambda_vec = self.constraints.project_lambda(lambda_vec)"]:
         raise U(f"_eval projection step changed: {ast.unparse(pj)}")
     i_pj, i_L = evb.index(pj), evb.index(one(assigns(evb, "L"), "L = ... in _eval"))
-    if not evb.index(br) < i_pj < i_L:
-        raise U("_eval: the projection no longer sits between the error/gamma computation and L")
+    if not evb.index(br) < i_pj:
+        raise U("_eval: the projection no longer follows the error/gamma computation")
     out.append("/-- `_eval`: `error = self.errors[Q.index].dot(Q)`, `gamma = self.gammas[Q.index].dot(Q)`, then "
-               "`if self.opt_lambda: lambda_vec = self.constraints.project_lambda(lambda_vec)` BEFORE L is computed -/\n"
-               "def evalProjectsFirst : Bool := true")
+               "`if self.opt_lambda: lambda_vec = self.constraints.project_lambda(lambda_vec)`; true = that statement "
+               "precedes `L = ...`, so L is computed with the PROJECTED multiplier (opt_lambda is always True here) -/\n"
+               f"def evalProjectsFirst : Bool := {'true' if i_pj < i_L else 'false'}")
     meta["_eval"] = [ast.unparse(n) for n in br.orelse] + [ast.unparse(pj)]
 
     bh = find_func(tree, "_Lagrangian", "best_h")
@@ -621,9 +667,10 @@ def lift_egloop(repo):
                        ("classifier", "self._call_oracle(lambda_vec)")):
         if ast.unparse(one(assigns(bb, tgt), tgt).value) != want_:
             raise U(f"best_h: {tgt} changed")
-    out.append("/-- best_h: `values = self.errors + self.gammas.transpose().dot(lambda_vec); best_idx = values.idxmin()` "
-               "(first minimum); with no stored hypothesis `best_value = np.inf`, so the answer is always stored -/\n"
-               "def bestIsFirstArgmin : Bool := true")
+    out.append("/-- best_h: `values = self.errors + self.gammas.transpose().dot(lambda_vec); best_idx = values.idxmin()`: scanning "
+               "the stored values in index order, a later value replaces the current best only when this holds (first minimum); "
+               "with no stored hypothesis `best_value = np.inf`, so the answer is always stored -/\n"
+               "def argBetter (v best : Rat) : Bool := decide (v < best)")
     meta["best_h"] = sb + so
     out += ["", "end EGLoopGen", ""]
     return "EGLoopGen.lean", "\n".join(out), meta
@@ -750,8 +797,7 @@ def lift_linprog(repo):
     res = one(assigns(body, "result"), "result = opt.linprog(...)")
     if ast.unparse(res.value) != "opt.linprog(c, A_ub=A_ub, b_ub=b_ub, A_eq=A_eq, b_eq=b_eq, method='highs-ds')":
         raise U(f"primal linprog call changed: {ast.unparse(res.value)}")
-    out.append("/-- primal call `opt.linprog(c, A_ub=A_ub, b_ub=b_ub, A_eq=A_eq, b_eq=b_eq)`: MINIMISE c.x, default bounds x >= 0 -/\n"
-               "def primalDefaultBoundsNonneg : Bool := true")
+    # (the primal call is pinned literally above: no `bounds=`, i.e. scipy's default x >= 0, which `LinProg.primalFeasible` states)
     q = one(assigns(body, "Q"), "Q = ...")
     if ast.unparse(q.value) != "pd.Series(result.x[:-1], self.hs.index)":
         raise U(f"Q = {ast.unparse(q.value)}")
